@@ -30,10 +30,13 @@ type DriverCfg struct {
 
 	CondWrites bool // If-Match / If-None-Match on writes
 	CondReads  bool
-	Metadata   bool // random metadata/tags on writes
-	Checksums  bool // supply (right and wrong) checksums
-	BigBodies  bool // multi-MiB bodies
-	HugeBodies int  // at most that many bodies per run around the 8 MiB chunk size of the outbox / SQL part stores
+	Metadata   bool  // random metadata/tags on writes
+	Checksums  bool  // supply (right and wrong) checksums
+	BigBodies  bool  // multi-MiB bodies
+	HugeBodies int   // at most that many bodies per run around the 8 MiB chunk size of the outbox / SQL part stores
+	BigOnce    bool  // verifyKey reads a current version larger than 1 MiB once (plain GET), not a second time by its version id
+	HugeSizes  []int // the huge body sizes to draw from (nil: 8 MiB-1, 8 MiB, 8 MiB+1, 9449529, 16 MiB+1)
+	HugeDen    int   // a body is a huge one with probability 1/HugeDen while HugeBodies is not used up (0: 5)
 	BodySizes  []int
 	// RepeatPartBodies: parts of one multipart upload reuse the previous part's
 	// body half of the time (content dedup then stores one part id several
@@ -333,10 +336,17 @@ func (d *Driver) bodySize(g *sim.Tape) int {
 	if d.Cfg.BigBodies && g.Chance(1, 12) {
 		return 1<<20 + g.Int(3<<20)
 	}
-	if d.hugeUsed < d.Cfg.HugeBodies && g.Chance(1, 5) {
+	hugeDen := d.Cfg.HugeDen
+	if hugeDen <= 0 {
+		hugeDen = 5
+	}
+	if d.hugeUsed < d.Cfg.HugeBodies && g.Chance(1, hugeDen) {
 		// around the multiples of the 8 MiB chunk the part outbox and the SQL part store split parts into
 		d.hugeUsed++
 		d.rc.Stats.Inc("probe.huge_body")
+		if hs := d.Cfg.HugeSizes; len(hs) > 0 {
+			return hs[g.Int(len(hs))]
+		}
 		return []int{8<<20 - 1, 8 << 20, 8<<20 + 1, 9449529, 16<<20 + 1}[g.Int(5)]
 	}
 	return sizes[g.Int(len(sizes))]
@@ -355,6 +365,10 @@ func (d *Driver) reader(b []byte, g *sim.Tape) io.Reader {
 		body.EOFWithData = true
 	case 4:
 		body.Sizes = []int{1 + g.Int(5000)}
+		if len(b) > 1<<20 && body.Sizes[0] < 512 {
+			// multi-MiB body: small reads alternate with large ones instead of millions of small ones
+			body.Sizes = append(body.Sizes, 1<<20)
+		}
 	}
 	if d.Cfg.SlowBodies {
 		body.YieldEvery = 1 + g.Int(4)
@@ -1409,7 +1423,11 @@ func (d *Driver) verifyKey(op, b, k string) *Violation {
 	if ks == nil {
 		return nil
 	}
+	cur := ks.Latest()
 	for _, ver := range ks.Versions {
+		if d.Cfg.BigOnce && ver == cur && !ver.Marker && ver.Size() > 1<<20 {
+			continue // just read through the plain GET
+		}
 		id := ver.ID
 		if v := d.verifyVersion(op, b, k, &id, nil); v != nil {
 			return v
@@ -1458,7 +1476,12 @@ func (d *Driver) verifyVersion(op, b, k string, mv *string, g *sim.Tape) *Violat
 		if g != nil {
 			sizes = [][]int{nil, {1, 2, 3}, {4096}, {1 << 20}, {7, 64 * 1024}}[g.Int(5)]
 		}
-		got, rerr = seams.ReadAllSized(rds[0], sizes, 0, "get.read")
+		if len(sizes) == 3 && want.Size() > 1<<20 {
+			// multi-MiB body: byte-sized reads at the start and between large
+			// ones instead of millions of them
+			sizes = []int{1, 2, 3, 64 * 1024, 5, 1 << 20}
+		}
+		got, rerr = seams.ReadAllSizedHint(rds[0], sizes, 0, "get.read", int(want.Size()))
 		for _, r := range rds {
 			r.Close()
 		}
